@@ -1,6 +1,7 @@
 package main
 
 import (
+	errorsv3 "gopkg.in/hedzr/errors.v3"
 	"bytes"
 	"fmt"
 	"os"
@@ -71,6 +72,7 @@ type c06case struct {
 	layoutOK bool    // message is in the layout-fidelity domain
 	pc       uintptr // the call site the record is attributed to (one of 320)
 	nilAt    []int   // positions at which the attribute list handed over holds an unused (nil) slot
+	tsLayout string  // the logger's own timestamp layout, if the application set one (it concerns the timestamp only)
 }
 
 // withNils inserts nil slots (what a pre-sized attribute list holds where nothing was put) at the given positions.
@@ -109,6 +111,11 @@ func c06gen(r *gen.R, testing bool) c06case {
 	c.ts = r.Time()
 	if r.P(3) {
 		c.ts = time.Time{} // the zero instant is an instant like any other: the call carries it
+	}
+	if r.P(12) {
+		// the application's own timestamp layout (blanks, commas, zone abbreviations): it says how the record's instant is
+		// written, the attribute values are written as always
+		c.tsLayout = gen.Pick(r, []string{time.RFC1123, time.UnixDate, time.Kitchen, "Jan _2 15:04:05 MST", time.RFC822, "2006-01-02 15:04:05.000"})
 	}
 	c.tagW = 3
 	c.minW = 36
@@ -204,6 +211,11 @@ func sanitizeErrs(kvs []gen.KV) {
 			clean := gen.Filter(v.Text, gen.StrOpt{NoCtl: true, NoESC: true, ValidUTF8: true})
 			nv := gen.V{Kind: "err", Text: clean}
 			nv.Go = fmt.Errorf("%s", clean)
+			if v.Kind == "errv3" {
+				// an error that carries a stack trace stays one (its dump has the trace's lines too)
+				e := errorsv3.New("%s", clean)
+				nv = gen.V{Kind: "errv3", Text: e.Error(), Go: e}
+			}
 			*v = nv
 		}
 	}
@@ -269,8 +281,13 @@ func neutralV(v gen.V) gen.V {
 	case "bytes":
 		v.Text = neutralS(v.Text)
 		v.Go = []byte(v.Text)
-	case "err", "errv3":
-		v.Kind = "err"
+	case "errv3":
+		// stays an error with a stack trace (the same object when there is nothing to neutralise)
+		if t := neutralS(v.Text); t != v.Text {
+			e := errorsv3.New("%s", t)
+			v.Text, v.Go = e.Error(), e
+		}
+	case "err":
 		v.Text = neutralS(v.Text)
 		v.Go = fmt.Errorf("%s", v.Text)
 	case "stringer":
@@ -374,6 +391,10 @@ func c06main(c *Ctx) {
 			slog.SetLevelOutputWidth(cs.tagW)
 			slog.SetMessageMinimalWidth(cs.minW)
 			lg := newRoot(cs.name, FColor, w, slog.AlwaysLevel)
+			if cs.tsLayout != "" {
+				lg.SetTimeFormat(cs.tsLayout)
+				c.R.Add("records_of_a_logger_with_its_own_timestamp_layout", 1)
+			}
 			// the logger is not always fresh and colored from its first record: it may have logged in another format, in
 			// colour already (a multi-line record with attributes), or the record before this one died in a panicking value
 			switch warm {
@@ -390,7 +411,25 @@ func c06main(c *Ctx) {
 			case 5:
 				doomedRecord(FColor, w)
 			}
+			// a destination IN FRONT of the recording one that takes a part of what it is given and reports no error (a
+			// chunking device): the recording destination holds the one whole record all the same
+			if idx%11 == 5 {
+				lg.SetWriter(c06chunkW{}).AddWriter(w)
+				lg.SetErrorWriter(c06chunkW{}).AddErrorWriter(w)
+				c.R.Add("records_with_a_chunking_destination_in_front", 1)
+			}
 			evs := capture(log, func() { lg.WriteThru(bg, cs.lvl, cs.ts, cs.pc, cs.msg, withNils(attrsOf(cs.kvs), cs.nilAt)) })
+			if idx%11 == 5 {
+				// (whatever the library reports about the chunking destination is a record of its own: C13 and C04 judge it)
+				var own []mon.Event
+				for _, e := range evs {
+					if e.Kind == mon.EvWrite && bytes.Contains(e.Data, []byte(diagText)) && len(own) > 0 {
+						continue
+					}
+					own = append(own, e)
+				}
+				evs = own
+			}
 			c.R.Add("write_events", int64(len(evs)))
 			if len(evs) != 1 || evs[0].Kind != mon.EvWrite {
 				return nil, []tv{{"one-write", "count", fmt.Sprintf("expected exactly one Write, saw %s", fmtEvents(evs))}}
@@ -464,6 +503,7 @@ func c06main(c *Ctx) {
 		desc := cs.desc(FColor)
 		desc["ts"] = cs.ts.Format(time.RFC3339Nano)
 		desc["tag_width"], desc["min_width"], desc["layout_domain"], desc["other_flags"] = cs.tagW, cs.minW, cs.layoutOK, otherFlags
+		desc["logger_time_layout"] = cs.tsLayout
 		desc["level_colours_set"] = recolor
 		desc["same_logger_logged_before_in"] = []string{"-", "-", "json", "logfmt", "color", "a record that panicked while being formatted (recovered)"}[warm]
 		payload, viols := run(cs)
@@ -499,6 +539,16 @@ func c06main(c *Ctx) {
 			c.R.Violation(idx, v.clause, "C06/"+v.clause+"/"+v.feature, v.detail+"\npayload: "+q(clip(string(payload), 1500)), desc)
 		}
 	})
+}
+
+// c06chunkW takes at most 48 bytes of what it is given and says so, without an error.
+type c06chunkW struct{}
+
+func (c06chunkW) Write(p []byte) (int, error) {
+	if len(p) > 48 {
+		return 48, nil
+	}
+	return len(p), nil
 }
 
 func clipList(a []string) []string {
@@ -585,6 +635,14 @@ func c06check(payload []byte, cs c06case, testing bool) (out []tv) {
 	text := oracle.StripANSI(payload)
 	tsText := cs.ts.Format(slog.TimeNano) // default flags: time + microseconds, zone of the instant
 	prefix := tsText + "| "
+	if cs.tsLayout != "" {
+		// the instant in the application's layout (which instant and zone: C16); the record goes on after the bar
+		i := strings.Index(text, "| ")
+		if i < 0 {
+			return append(out, tv{"layout-prefix", "prefix", fmt.Sprintf("record text %q has no timestamp bar", clip(text, 120))})
+		}
+		prefix = text[:i+2]
+	}
 	if cs.name != "" {
 		prefix += cs.name + " "
 	}
@@ -642,6 +700,19 @@ func c06check(payload []byte, cs c06case, testing bool) (out []tv) {
 			feat = "leading-blank"
 		}
 		out = append(out, tv{"layout-padding", feat, fmt.Sprintf("first line %q (len %d) followed by %d blanks; minimal width %d wants %d (+%d separator)", clip(first, 60), len(first), nsp, cs.minW, max0(padB), extra)})
+	}
+	if cs.tsLayout != "" {
+		// an attribute named "time" that holds an instant is written by the timestamp path (in the application's layout,
+		// up to and including a bar): its blanks are the layout's, not token separators
+		for _, l := range leaves {
+			if l.Key == "time" && l.Val.Kind == "time" {
+				if i := strings.Index(mainRest, " time="); i >= 0 {
+					if j := strings.IndexByte(mainRest[i:], '|'); j > 0 {
+						mainRest = mainRest[:i+1] + strings.ReplaceAll(strings.ReplaceAll(mainRest[i+1:i+j], " ", "_"), ",", "_") + mainRest[i+j:]
+					}
+				}
+			}
+		}
 	}
 	pairs, err := oracle.ParseColoredText([]byte(mainRest))
 	if err != nil {
